@@ -66,7 +66,7 @@ Fixpoint sx (fuel : nat) (e : expr) (m : mstate) {struct fuel} : sres :=
             | EIdent name =>
                 pop2s m2 (fun b a m3 =>
                   match spec_binop o bop a b with
-                  | Ok v => XNormal (set_menv m3 (env_set (menv m3) name v))
+                  | Ok v => XNormal (set_menv m3 (env_set (menv m3) (trim_dollar name) v))
                   | Err x => XErr x m3
                   end)
             | _ => XErr ENeedOracle m2      (* rejected by the compiler *)
@@ -96,7 +96,7 @@ Fixpoint sx (fuel : nat) (e : expr) (m : mstate) {struct fuel} : sres :=
         if truthy v then sx f t m2 else sx f e' m2))
   | EAssign name v =>
       then_ (sx f v m) (fun m1 => pop1s m1 (fun x m2 =>
-        XNormal (set_menv m2 (env_set (menv m2) name (match x with VIter y _ => y | _ => x end)))))
+        XNormal (set_menv m2 (env_set (menv m2) (trim_dollar name) (match x with VIter y _ => y | _ => x end)))))
   | EPostfix name op =>
       (* x++ / x-- : update the variable, then drop one value from the stack *)
       match lookup o obj (menv m) name with
@@ -110,7 +110,7 @@ Fixpoint sx (fuel : nat) (e : expr) (m : mstate) {struct fuel} : sres :=
                  end) with
           | None => XErr EScript m
           | Some v' =>
-              let m1 := set_menv m (env_set (menv m) name v') in
+              let m1 := set_menv m (env_set (menv m) (trim_dollar name) v') in
               match stk m1 with
               | _ :: s => XNormal (set_stk m1 s)
               | [] => XErr EInternal m1
@@ -207,8 +207,8 @@ with sforeach (fuel : nat) (idx ident : str) (it : value) (off : N) (body : list
       match foreach_next it off with
       | Err x => XErr x m
       | Ok (Some (x, k)) =>
-          let e1 := env_declare (menv m) ident x in
-          let e2 := match idx with [] => e1 | _ => env_declare e1 idx k end in
+          let e1 := env_declare (menv m) (trim_dollar ident) x in
+          let e2 := match idx with [] => e1 | _ => env_declare e1 (trim_dollar idx) k end in
           then_ (sblock f body (mkM (VIter it (off + 1) :: stk m) e2 (trace m) (polls m))) (fun m1 =>
             (* back at the head: the iterator must be on top again *)
             match drop_residue (menv m1) (stk m1) with
